@@ -267,6 +267,8 @@ func runC14(c *eng.Ctx, tier string) {
 
 	// R-C14-5 version/bytes pairing (shared with C09)
 	kvPairing(c, "R-C14-5")
+	// "two puts of different values never receive the same version": C02's numbering rules
+	includeOnly(c, "R-C14-5", func(sc *eng.Ctx) { runC02(sc, "quick") }, "R-C02-3")
 
 	// R-C14-6 package-level memory of the request path (acl, db, audit,
 	// server) is written only in init or under an exclusive lock
